@@ -537,8 +537,14 @@ func simWorld(rc *kernel.RunCtx) {
 	kernel.Active = k
 	w := &world{rc: rc, k: k, t: rc.T, burst: rc.Param("burst", 0) == 1}
 	var simDur time.Duration
+	server := rc.Run%4 == 3 // every fourth run goes through the real HTTP server (server_test.go)
 	esc := kernel.Bubble(rc.TB, func() {
 		start := time.Now()
+		if server {
+			serverWorld(rc, k)
+			simDur = time.Since(start)
+			return
+		}
 		u, _ := url.Parse("http://127.0.0.1:1")
 		w.h = proxy.New(slog.New(slog.NewTextHandler(io.Discard, nil)), "127.0.0.1", 7331, u)
 		simhook.SetGoStart(func(site string) { k.Park("go:"+site, "start", "", nil) })
@@ -558,8 +564,11 @@ func simWorld(rc *kernel.RunCtx) {
 	rc.Res.SimNanos = int64(simDur)
 	rc.Finish(k)
 	faults := rc.Res.Stats["fault_write_failed"] + rc.Res.Stats["fault_cancel_idle"] + rc.Res.Stats["fault_cancel_in_write"] + rc.Res.Stats["fault_stall"]
-	rc.Res.Nontriv = len(w.clients) > 0 && len(w.bcasts) > 0 && (faults > 0 || k.Switches > 0)
 	rc.Res.Key = rc.Res.LogHash
+	if server {
+		return
+	}
+	rc.Res.Nontriv = len(w.clients) > 0 && len(w.bcasts) > 0 && (faults > 0 || k.Switches > 0)
 	if rc.WantSample || rc.Failed() {
 		rc.Res.Sample = map[string]any{"actions": w.trace, "clients": len(w.clients), "broadcasts": len(w.bcasts)}
 	}
